@@ -860,6 +860,11 @@ def apply(rep, pid, files, tier):
         # these rules go by per-function summaries and reference tables of the pinned tree's functions: the view without the
         # inlining of new helpers (a helper is followed through its own summary)
         prog = ir.Program(units, cdb.HOST, inline_helpers=False)
+        # ... except what a constructor stores: a store made through a new helper (`settime(r, tv)`) is a store the constructor
+        # makes, and is seen where the helper is inlined
+        prog_i = ir.Program(units, cdb.HOST)
+        if not any(u_.inlined for u_ in prog_i.units.values()):
+            prog_i = None
     except cdb.AnalysisBroken:
         raise
     except Exception:
@@ -1029,6 +1034,11 @@ def apply(rep, pid, files, tier):
             want = (ref_ct.get(f.file) or {}).get(key)
             if want is not None and "record" in want:
                 ci = ctor_info(f)
+                fi = prog_i.units[up].func(f.name) if (prog_i is not None and up in prog_i.units) else None
+                if fi is not None and ci is not None and ci[1] == want["record"] and [m for m in want["stored"] if m not in ci[2] and m in ci[3]]:
+                    cii = ctor_info(fi)
+                    if cii is not None and cii[1] == want["record"]:
+                        ci = cii
                 if ci is not None and ci[1] == want["record"]:
                     n += 1
                     missing = [m for m in want["stored"] if m not in ci[2] and m in ci[3]]
